@@ -97,6 +97,7 @@ class DataCase(object):
         self.map_reversed = bool(rng.integers(2))
         self.map_extra_key = rng.random() < 0.3
         # measurements
+        self.replicates = False
         self.meas = {}
         for k in self.keys:
             self.meas[k] = []
@@ -104,6 +105,15 @@ class DataCase(object):
                 n = int(rng.integers(1, 5))
                 t = np.sort(rng.choice(POOL, size=n, replace=False))
                 v = rng.uniform(0.5, 3.0, size=n)
+                if rng.random() < 0.2:
+                    # replicate assays of one sample: a second row at the
+                    # same time, with another or with the very same reading
+                    # (every row of the dataset is a measurement)
+                    j = int(rng.integers(n))
+                    t = np.insert(t, j + 1, t[j])
+                    v = np.insert(v, j + 1, v[j] if rng.random() < 0.5
+                                  else rng.uniform(0.5, 3.0))
+                    self.replicates = True
                 self.meas[k].append((t, v))
         # an individual may lack every measurement of one observable (only
         # the first biomarker was not assayed for that patient)
@@ -209,6 +219,9 @@ class DataCase(object):
                             r[kn['dose']] = a_
                             if self.with_duration_col:
                                 r[kn['duration']] = d_
+                            # (one dose: a replicate row at the same time
+                            # carries the measurement only)
+                            break
             if decoys:
                 blocks.append([{kn['id']: lab(i), kn['time']: float(tt),
                                 kn['obs']: 'decoy observable',
